@@ -158,7 +158,8 @@ def runtime_check(res: Result, ws_name, decls, props_to_run, extra_emit=None, fe
     out = {}
     for prop in props_to_run:
         outdir = os.path.join(ws.dir, "out")
-        reports, failures, dt = cratebuild.run_monitor(ws, prop, res.tier, res.seed, outdir, parts=parts, extra_args=extra_args)
+        reports, failures, dt = cratebuild.run_monitor(ws, prop, res.tier, res.seed, outdir, parts=parts,
+                                                       extra_args=(extra_args or []) + ["--expect-subjects", str(len(modules) - len(quarantined) - len(unspec))])
         log("monitor %s: %d reports, %d failures, %.1fs" % (prop, len(reports), len(failures), dt))
         for f in failures:
             res.inconclusive.append("monitor process failed: %s" % json.dumps(f)[:600])
